@@ -34,7 +34,7 @@ CAND_DROPPED = {"kind": "disaggregate_unobservable_cell_dropped"}
 CAND_DICT = {"kind": "disaggregate_dict_weights_keyerror"}
 DOCUMENTED_CURRENCY_FIELDS = ["earned_premium", "used_earned_premium", "written_premium", "paid_loss",
                               "reported_loss", "incurred_loss"]
-FIELD_POOL = DOCUMENTED_CURRENCY_FIELDS + ["reported_claims", "open_claims", "earned_exposure", "paid_loss_ratio"]
+FIELD_POOL = DOCUMENTED_CURRENCY_FIELDS + ["reported_claims", "open_claims", "earned_exposure", "closed_claims"]
 
 HEADER = """From Coq Require Import ZArith QArith List Bool.
 From Bermuda Require Import Model.Base Model.Blend Model.Units.
@@ -503,9 +503,12 @@ def gen_aq(r: random.Random, directed=None):
     if directed:
         params = dict(directed)
     else:
-        params = dict(policy_length_months=r.choice([12, 12, 12, 6, 3, 24]),
+        # inside the hypothesis of the conservation theorem (every accident quarter has a positive total share):
+        # non-continuous issuance only with policies at least as long as the policy year (the rest is F18, probed apart)
+        plen = r.choice([12, 12, 12, 6, 3, 24])
+        params = dict(policy_length_months=plen,
                       policy_year_origin=D(2020, r.choice([1, 1, 4, 7, 10, 3]), 1),
-                      continuous_issuance=r.random() < 0.75)
+                      continuous_issuance=(r.random() < 0.7) or plen < 12)
     flat = True
     if not directed and r.random() < 0.06 and len(cells) > 2:
         # break the flat right edge: drop the final evaluation of one quarter
@@ -637,7 +640,9 @@ def gen_premium(r: random.Random):
             if sum(p) == 0:
                 p[0] = 1
             return p
-        p = [r.choice([0.0, r.uniform(0.01, 5.0)]) for _ in range(n)]
+        # "float": small dyadics with arbitrary sums (the divisions by the sums make binary64 inexact; the inputs stay
+        # short so that the exact rational evaluation inside coqc stays cheap)
+        p = [r.choice([0.0, r.randint(1, 40) / 8]) for _ in range(n)]
         if sum(p) == 0:
             p[0] = 1.0
         return p
@@ -646,7 +651,7 @@ def gen_premium(r: random.Random):
     eres = r.choice([1, 1, 2, 3, 6, 12]) if style != "dyadic" else r.choice([1, 2, 4])
     ores = r.choice([1, 2, 3, 3, 6, 12])
     return dict(kind="premium", premium_volume={"dyadic": r.choice([1.0, 1024.0, 37.5]), "int": r.choice([1000, 1, 12345]),
-                                                "float": r.uniform(1.0, 1e6)}[style],
+                                                "float": r.randint(2, 2000000) / 2}[style],
                 writing_pattern=pattern(r.randint(1, 5)), writing_resolution=wres,
                 earning_pattern=pattern(r.randint(1, 5)), earning_resolution=eres, output_resolution=ores,
                 output_offset=r.choice([0, 0, 1, 2, r.randint(0, ores + 2)]), continuous_writing=r.random() < 0.6, style=style)
@@ -743,6 +748,10 @@ def evaluate(case, res):
     if k == "disagg":
         fails, dropped = oracle_disagg(case, res)
         fails += oracle_reaggregate(case, res)
+        if dropped and not fails:
+            c = dropped[0]
+            return [f"cell {c.period_start}..{c.period_end} at {c.evaluation_date} has no observable sub-period and is "
+                    "dropped: its amounts vanish"], CAND_DROPPED
         return fails, None
     if k == "aq":
         fails = oracle_aq(case, res)
@@ -933,13 +942,9 @@ def probe_f18(ctx):
 
 
 def probe_candidates(ctx):
-    """two further defects seen on the unchanged tree; reported as violations only once the lead lists their class in
-    known_findings.json (otherwise recorded as notes so that the check does not block)"""
+    """known findings H1 / H2 (disaggregate_experience), probed with directed inputs on every run"""
     from bermuda import CumulativeCell, Triangle
     from bermuda.utils.disaggregate import disaggregate_experience
-
-    def listed(cls):
-        return any(k.get("property") == "C18" and k.get("class") == cls for k in ctx.known)
 
     def cc(ps, pe, e, v):
         return CumulativeCell(period_start=ps, period_end=pe, evaluation_date=e, values=v)
@@ -947,30 +952,32 @@ def probe_candidates(ctx):
     t = Triangle([cc(D(2020, 1, 1), D(2020, 12, 31), D(2020, 2, 29), {"paid_loss": 100.0}),
                   cc(D(2020, 1, 1), D(2020, 12, 31), D(2020, 12, 31), {"paid_loss": 200.0}),
                   cc(D(2021, 1, 1), D(2021, 12, 31), D(2021, 12, 31), {"paid_loss": 50.0})])
-    case = dict(kind="disagg", tri=t, res=3, weights=None, fields=None, how="ok", wtag="none", R=12)
+    case = dict(kind="disagg", tri=t, res=3, weights=None, fields=None, how="ok", wtag="none", R=12, probe="H1")
     res = run_disagg(case)
+    ctx.count(evaluations=2)
     if res[0] == "ok":
         _, dropped = oracle_disagg(case, res)
         if dropped:
             what = ("disaggregate_experience drops a cell whose evaluation date lies before the end of its first sub-period "
                     f"({dropped[0].period_start}..{dropped[0].period_end} at {dropped[0].evaluation_date}): its amounts vanish")
-            if listed(CAND_DROPPED):
-                ctx.violation("impl-violation", what, {"case": case_json(case)}, found_input=True, finding_class=CAND_DROPPED)
-            else:
-                ctx.notes.append("CANDIDATE-FINDING (not listed in known_findings.json, not raised): " + what)
+            ctx.violation("impl-violation", what, {"case": case_json(case)}, found_input=True, finding_class=CAND_DROPPED)
     t2 = Triangle([cc(D(2020, 1, 1), D(2020, 12, 31), D(2020, 12, 31), {"paid_loss": 200.0})])
-    case2 = dict(kind="disagg", tri=t2, res=3, weights={D(2020, 1, 1): [0.25, 0.25, 0.25, 0.25]}, fields=None,
-                 how="ok", wtag="dict", R=12)
-    res2 = run_guard(lambda: disaggregate_experience(t2, 3, case2["weights"], None))
+    res2 = run_guard(lambda: disaggregate_experience(t2, 3, {D(2020, 1, 1): [0.25, 0.25, 0.25, 0.25]}, None))
     if res2[0] == "err":
         what = f"disaggregate_experience with the documented dict form of period_weights raises {type(res2[1]).__name__}: {res2[1]}"
-        if listed(CAND_DICT):
-            ctx.violation("impl-violation", what, {"probe": "dict_weights"}, found_input=True, finding_class=CAND_DICT)
-        else:
-            ctx.notes.append("CANDIDATE-FINDING (not listed in known_findings.json, not raised): " + what)
+        ctx.violation("impl-violation", what, {"probe": "H2", "case": None}, found_input=True, finding_class=CAND_DICT)
 
 
 def replay(ctx, data):
+    if data.get("probe") == "H2":
+        from bermuda import CumulativeCell, Triangle
+        from bermuda.utils.disaggregate import disaggregate_experience
+
+        t2 = Triangle([CumulativeCell(period_start=D(2020, 1, 1), period_end=D(2020, 12, 31),
+                                      evaluation_date=D(2020, 12, 31), values={"paid_loss": 200.0})])
+        r2 = run_guard(lambda: disaggregate_experience(t2, 3, {D(2020, 1, 1): [0.25, 0.25, 0.25, 0.25]}, None))
+        print("disaggregate_experience(t, 3, period_weights={2020-01-01: [0.25]*4}) ->", "ok" if r2[0] == "ok" else repr(r2[1]))
+        return 0 if r2[0] == "ok" else 1
     if "case" not in data or data["case"] is None:
         print("replay data:", {k: v for k, v in data.items() if k != "case"})
         return 1
